@@ -167,6 +167,7 @@ class _NodeIndex:
 def _write_set(stmts):
 	"""Names assigned and names whose object is mutated, syntactically, in a list of statements."""
 	assigned, mutated, yields = set(), set(), False
+	calls = []
 	MUT = {'append', 'extend', 'insert', 'pop', 'remove', 'sort', 'reverse', 'clear', 'add', 'discard', 'update',
 	       'setdefault', 'fill', 'increment', 'popitem'}
 
@@ -188,8 +189,27 @@ def _write_set(stmts):
 			if r:
 				mutated.add(r)
 
-	for s in stmts:
-		for n in ast.walk(s):
+	def leaves(block):
+		"""the block ends in break/return/raise and contains no continue: none of its effects reach the loop head"""
+		if not block or not isinstance(block[-1], (ast.Break, ast.Return, ast.Raise)):
+			return False
+		return not any(isinstance(x, ast.Continue) for b in block for x in ast.walk(b))
+
+	def nodes(stmts_):
+		for s_ in stmts_:
+			if isinstance(s_, ast.If):
+				yield from ast.walk(s_.test)
+				if not leaves(s_.body):
+					yield from nodes(s_.body)
+				if not leaves(s_.orelse):
+					yield from nodes(s_.orelse)
+			elif isinstance(s_, (ast.For, ast.While, ast.With, ast.Try)):
+				yield from ast.walk(s_)
+			else:
+				yield from ast.walk(s_)
+
+	for s in [None]:
+		for n in nodes(stmts):
 			if isinstance(n, ast.Assign):
 				for t in n.targets:
 					target(t)
@@ -215,13 +235,8 @@ def _write_set(stmts):
 					r = root(n.func.value)
 					if r:
 						mutated.add(r)
-				# arguments may be written by the callee (decided by the callee's contract at run time);
-				# conservatively every Name passed to a call and every 'out=' keyword is a candidate
-				for a in list(n.args) + [k.value for k in n.keywords]:
-					r = root(a) if isinstance(a, (ast.Name, ast.Subscript, ast.Attribute)) else None
-					if r:
-						mutated.add(('arg', r))
-	return assigned, mutated, yields
+				calls.append(n)
+	return assigned, mutated, yields, calls
 
 
 class PathLimit(Exception):
@@ -344,7 +359,7 @@ class Engine:
 		st.entry_env = dict(st.env)
 		st.entry_heap = dict(st.heap)
 		if fi.is_generator:
-			st.ghosts['Y'] = SSeq.empty(c.yields.desc if isinstance(c.yields, TypeSpec) else c.yields)
+			st.ghosts['Y'] = SSeq.empty(self._yield_type(c, st.env))
 		for ax in c.axioms:
 			st.assume(SPEC.AXIOMS[ax]())
 		for i, r in enumerate(c.requires):
@@ -394,8 +409,12 @@ class Engine:
 		env_extra = {'result': result}
 		if fi.is_generator:
 			env_extra['Y'] = st.ghosts['Y']
+		# parameter names in a postcondition denote the caller's arguments (entry values); their mutable
+		# contents are read from the final heap unless wrapped in old()
+		from .pure import PureEval
+		pe = PureEval(self, st, env_override=st.entry_env, extra=env_extra)
 		for i, e in enumerate(c.ensures):
-			self.oblige(st, 'post', f'ensures#{i}', self.pure(e, st, extra=env_extra), {'clause': e if isinstance(e, str) else getattr(e, '__name__', 'fn')})
+			self.oblige(st, 'post', f'ensures#{i}', pe.eval_clause(e), {'clause': e if isinstance(e, str) else getattr(e, '__name__', 'fn')})
 
 	# ---- C types ----------------------------------------------------------------------------
 	def _bind_cython_types(self, fi, override):
@@ -718,9 +737,12 @@ class Engine:
 					yield s2, out
 
 	def havoc(self, st, body_nodes, inv):
-		assigned, mutated, yields = _write_set(body_nodes)
+		assigned, mutated, yields, calls = _write_set(body_nodes)
 		if inv is not None and inv.modifies is not None:
 			assigned = set(inv.modifies) | assigned
+		for cn in calls:
+			for r in self._written_roots(cn, st):
+				mutated.add(('arg', r))
 		for name in sorted(assigned):
 			if inv is not None and name in inv.types:
 				ts = inv.types[name]
@@ -762,8 +784,102 @@ class Engine:
 			st.ghosts['Y'] = y.fresh_like('Y')
 			st.assume(st.ghosts['Y'].length >= 0)
 
+	def _written_roots(self, cn, st):
+		"""Names whose object the call may write (decided by the callee's contract where the callee can be
+		resolved without executing anything; conservatively every argument otherwise)."""
+		def root(n):
+			while isinstance(n, (ast.Attribute, ast.Subscript, ast.Call)):
+				n = n.func if isinstance(n, ast.Call) else n.value
+			return n.id if isinstance(n, ast.Name) else None
+		argnodes = list(cn.args) + [k.value for k in cn.keywords]
+		allroots = [r for r in (root(a) for a in argnodes if isinstance(a, (ast.Name, ast.Subscript, ast.Attribute))) if r]
+		f = cn.func
+		target = None
+		self_root = None
+		try:
+			if isinstance(f, ast.Name):
+				target = self.lookup(f.id, st)
+			elif isinstance(f, ast.Attribute) and isinstance(f.value, ast.Name):
+				base = self.lookup(f.value.id, st)
+				if isinstance(base, ModRef):
+					target = self.repo.resolve(f'{base.qualname}.{f.attr}')
+				elif isinstance(base, ExtRef):
+					target = ExtRef(f'{base.qualname}.{f.attr}')
+				elif isinstance(base, ClassRef):
+					target = FuncRef(f'{base.qualname}.{f.attr}')
+				else:
+					bv = st.deref(base) if isinstance(base, Ref) else base
+					cls = None
+					if isinstance(bv, Record):
+						cls = bv.cls
+					elif isinstance(bv, SRec):
+						cls = bv.T.pyclass
+					elif isinstance(bv, SObj):
+						cls = self.lib.get('class:' + bv.T.name)
+					if cls is not None:
+						target = FuncRef(f'{cls}.{f.attr}')
+						self_root = f.value.id
+					elif ('method:' + f.attr) in self.lib:
+						return [r for r in [root(k.value) for k in cn.keywords if k.arg == 'out'] if r]
+		except Unsupported:
+			target = None
+		if isinstance(target, ClassRef):
+			c = self.registry.get(target.qualname + '.__init__')
+			if c is None or not c.writes or list(c.writes) == ['self']:
+				return []
+			target = FuncRef(target.qualname + '.__init__')
+		if isinstance(target, ExcClass):
+			return []
+		if isinstance(target, ExtRef):
+			h = self.lib.get(target.qualname)
+			w = getattr(h, 'writes', ()) if h is not None else None
+			if w is None:
+				return allroots
+			out = [root(k.value) for k in cn.keywords if k.arg == 'out' or k.arg in w]
+			out += [root(a) for i, a in enumerate(cn.args) if i in w]
+			return [r for r in out if r]
+		if isinstance(target, FuncRef):
+			c = self.registry.get(target.qualname)
+			if c is None:
+				return allroots
+			try:
+				fi = self.repo.funcinfo(target.qualname)
+			except Unsupported:
+				return allroots
+			params = fi.params
+			if self_root is not None or (fi.cls is not None and params and params[0] == 'self'):
+				pos = params[1:]
+			else:
+				pos = params
+			out = []
+			if 'self' in c.writes and self_root:
+				out.append(self_root)
+			for i, a in enumerate(cn.args):
+				if i < len(pos) and pos[i] in c.writes:
+					out.append(root(a))
+			for k in cn.keywords:
+				if k.arg in c.writes:
+					out.append(root(k.value))
+			return [r for r in out if r]
+		return allroots
+
 	def havoc_ref(self, st, ref, name, only_args=False):
 		c = st.heap[ref.addr]
+		if isinstance(c, Record):
+			nf = {}
+			for k, v in c.fields.items():
+				if isinstance(v, Ref):
+					self.havoc_ref(st, v, f'{name}.{k}', only_args)
+					nf[k] = v
+				elif isinstance(v, SV):
+					nf[k] = v.fresh_like(f'{name}.{k}')
+				else:
+					nf[k] = v
+			st.heap[ref.addr] = Record(c.cls, nf)
+			return
+		if isinstance(c, EmptySet):
+			st.heap[ref.addr] = SSet(z3.Const(fresh_name(name), z3.ArraySort(I, B)))
+			return
 		if hasattr(c, 'fresh_like'):
 			nc = c.fresh_like(name)
 			if isinstance(nc, SSeq):
@@ -787,9 +903,15 @@ class Engine:
 		cname = inv.counter or f'_i{lid}'
 		body_nodes = list(node.body) + ([node.test] if kind == 'while' else [])
 		# --- entry: counter, invariant holds
+		for i, cl in enumerate(self.cur_contract.before_loop.get(lid, [])):
+			if isinstance(cl, str) and cl.startswith('lemma:'):
+				st.assume(self.pure(cl[6:], st))   # instance of a lemma proved separately
+			else:
+				self.oblige(st, site, f'before#{i}', self.pure(cl, st))
 		if kind == 'for':
 			start, stop = self._iter_bounds(it)
 			st.env[cname] = SInt(start) if not isinstance(start, int) else start
+			st.env[f'__it{lid}'] = it
 		for i, cl in enumerate(inv.clauses):
 			self.oblige(st, site, f'inv-init#{i}', self.pure(cl, st))
 		# --- arbitrary iteration
@@ -815,6 +937,7 @@ class Engine:
 					self.oblige(s, site, 'decreases', z3.And(int_term(m0) >= 0, int_term(m1) < int_term(m0)))
 				return None
 			if out.kind == 'break':
+				self._after_loop(s, lid, site)
 				return (s, NORMAL)
 			return (s, out)
 
@@ -825,6 +948,7 @@ class Engine:
 					continue
 				for s3, b in self.branch(s2, self.truth(s2, v)):
 					if not b:
+						self._after_loop(s3, lid, site)
 						yield from self.exec_block(node.orelse, s3)
 						continue
 					for s4, out in self.exec_block(node.body, s3):
@@ -835,6 +959,7 @@ class Engine:
 			c = st.env[cname]
 			for s3, b in self.branch(st, c.term < int_term(stop)):
 				if not b:
+					self._after_loop(s3, lid, site)
 					yield from self.exec_block(node.orelse, s3)
 					continue
 				for s3b, item in self._iter_item(s3, it, c):
@@ -846,6 +971,14 @@ class Engine:
 							rr = after_body(s5, out)
 							if rr is not None:
 								yield rr
+
+	def _after_loop(self, st, lid, site):
+		"""ghost assertions placed after a loop by the contract: proved here, available afterwards"""
+		for i, cl in enumerate(self.cur_contract.after_loop.get(lid, [])):
+			if isinstance(cl, str) and cl.startswith('lemma:'):
+				st.assume(self.pure(cl[6:], st))   # instance of a lemma proved separately
+			else:
+				self.oblige(st, site, f'after#{i}', self.pure(cl, st))
 
 	def _iter_bounds(self, it):
 		if isinstance(it, SRange):
@@ -1029,7 +1162,12 @@ class Engine:
 		if name in mod.classes:
 			return ClassRef(f'{mod.qualname}.{name}')
 		if name in mod.imports:
-			return self.repo.resolve(mod.imports[name])
+			r = self.repo.resolve(mod.imports[name])
+			if isinstance(r, ExtRef) and r.qualname.startswith('gambit.'):
+				mname, attr = r.qualname.rsplit('.', 1)
+				if self.repo.is_module(mname) and attr in self.repo.module(mname).const_nodes:
+					return self.module_const(st, self.repo.module(mname), attr)
+			return r
 		if name in mod.const_nodes:
 			try:
 				return mod.const(name)
@@ -1239,6 +1377,12 @@ class Engine:
 			return
 		if isinstance(obj, SObj):
 			if attr in obj.T.fields:
+				yield st, obj.getattr(attr)
+			else:
+				yield st, BoundMethod(obj, attr)
+			return
+		if isinstance(obj, SRec):
+			if obj.has(attr):
 				yield st, obj.getattr(attr)
 			else:
 				yield st, BoundMethod(obj, attr)
@@ -1558,6 +1702,8 @@ class Engine:
 			yield from self.construct(st, f, args, kwargs, node, site)
 		elif isinstance(f, Closure):
 			yield from self.call_closure(st, f, args, kwargs, node)
+		elif isinstance(f, ExtObj) and ('call:' + f.kind) in self.lib:
+			yield from self.lib['call:' + f.kind](self, st, f, args, kwargs, node)
 		else:
 			raise Unsupported(f'call of {f!r} at line {node.lineno}')
 
@@ -1779,7 +1925,7 @@ class Engine:
 		# result
 		result = None
 		if c.yields is not None:
-			T = c.yields.desc if isinstance(c.yields, TypeSpec) else c.yields
+			T = self._yield_type(c, callee_env)
 			result = TSeq(T).fresh('Y')
 			st.assume(result.length >= 0)
 		elif c.returns is not None:
@@ -1800,6 +1946,16 @@ class Engine:
 		for e in c.ensures:
 			st.assume(pe2.eval_clause(e))
 		yield st, result
+
+	def _yield_type(self, c, env):
+		y = c.yields
+		if isinstance(y, TypeSpec):
+			return y.desc
+		if isinstance(y, TypeDesc):
+			return y
+		if callable(y):
+			return y(env)
+		raise Unsupported(f'{c.qualname}: no yield type')
 
 	def _resolve_ctype_of(self, fi, name):
 		saved = self.cur_finfo
@@ -1911,7 +2067,14 @@ class Engine:
 			return
 		if isinstance(obj, Ref) and isinstance(st.heap[obj.addr], Record):
 			rec = st.heap[obj.addr]
+			h = self.lib.get('recmethod:' + name)
+			if h is not None:
+				yield from h(self, st, obj, args, kwargs, node, site)
+				return
 			yield from self.call_repo(st, f'{rec.cls}.{name}', args, kwargs, node, site, self_val=obj)
+			return
+		if isinstance(obj, SRec):
+			yield from self.call_repo(st, f'{obj.T.pyclass}.{name}', args, kwargs, node, site, self_val=obj)
 			return
 		h = self.lib.get('method:' + name)
 		if h is None:
@@ -1932,6 +2095,14 @@ class Engine:
 			yield s2, None
 
 	def to_elem(self, st, T, v):
+		if isinstance(T, TRec) and isinstance(v, Ref) and isinstance(st.heap[v.addr], Record):
+			rec = st.heap[v.addr]
+			if rec.cls != T.pyclass:
+				raise Unsupported(f'yielded a {rec.cls}, contract says {T.pyclass}')
+			for f, cv in T.consts.items():
+				if rec.fields.get(f) is not cv:
+					raise Unsupported(f'field {f} of a yielded {T.name} differs from the declared constant')
+			return SRec(T, T.make_term(rec.fields))
 		h = self.lib.get('__to_elem__')
 		if h is not None:
 			r = h(self, st, T, v)
